@@ -32,10 +32,52 @@ def _one(ctx, sc, entry, stats, sample=False):
         ctx.sample({"scenario": {"cfg": sc["cfg"], "call0": sc["calls"][0]}, **common.describe(recs[0], 30)})
 
 
+def first_success_is_final(ctx, sc, entry):
+    """'the very object returned by the FIRST attempt that is classified as success': once an attempt's value has passed the result
+    classifier, the operation is not invoked again and anything call() returns is that object - also when a callback that runs after
+    the classification (on_attempt_end, a strategy's record_success) raises."""
+    recs, h, w = rig.run(sc, entry)
+    ctx.inc("runs")
+    ctx.inc("calls", len(recs))
+    for rec in recs:
+        first = None
+        nops = 0
+        for ev in rec.trace:
+            if ev[0] == "op":
+                nops = ev[1]
+                if first is not None:
+                    ctx.viol("operation-invoked-after-a-success", f"[{entry} call#{rec.idx}] attempt {first + 1} was classified as success, yet the operation was invoked again (attempt {ev[1]}); fault plan {sc.get('fault')}", common.payload(sc, entry, rec.idx))
+                    return
+            elif ev[0] == "rclassify" and ev[2] is False and first is None:
+                first = ev[1]
+        if first is None:
+            continue
+        ctx.inc("first_success_checks")
+        if rec.fault_fired:
+            ctx.inc("first_success_checks_with_a_raising_callback")
+        kind, val = rec.final
+        if kind == "return" and val is not rec.objs.get(first):
+            ctx.viol("returned-not-the-first-success", f"[{entry} call#{rec.idx}] attempt {first + 1} was the first success but call() returned {val!r}", common.payload(sc, entry, rec.idx))
+            return
+
+
 def work(ctx, tier):
     stats = {}
     rng = common.rng_for(ctx, "main")
     entries = rig.CALL_ENTRIES
+    for k in range((500 if tier == "quick" else 10000) // ctx.nshards):
+        sc = gen.rand_scenario(rng, max_attempts=(2, 5), p_special=0.0, p_budget=0.2, p_handler=0.2, p_abort=0.0, ncalls=(1, 2), placements=False, p_strategy_objects=0.5)
+        sc["cfg"]["result_classifier"] = True
+        sc["place"]["hooks"] = rng.choice(["call", "policy", "both"])
+        for c in sc["calls"]:
+            # make sure a success is reached, at a varying attempt, with more scripted successes after it
+            n = rng.randint(0, sc["cfg"]["max_attempts"] - 1)
+            c["outcomes"] = [[rng.choice(["exc", "res"]), rng.choice(gen.RETRYABLE), None] for _ in range(n)] + [["ok"], ["ok"], ["ok"]]
+        if k % 4:
+            sc["fault"] = {"kind": "cb", "cb": "aend", "at": rng.choice([0, 0, 1, 2, 3]), "exc": rng.choice(["RuntimeError", "ValueError", "KeyError", "OSError"])}
+        for e in common.pick_entries(rng, entries, 3):
+            first_success_is_final(ctx, sc, e)
+        ctx.inc("first_success_scenarios")
     max_len = 3 if tier == "quick" else 4
     for i, sc in enumerate(gen.sweep_scenarios(max_len=max_len, stride=3 if tier == "quick" else 1)):
         if i % ctx.nshards != ctx.shard:
@@ -67,6 +109,7 @@ def conclude(ctx):
         other = "result" if cause == "exception" else "exception"
         floors[f"final {cause} after previous {other}"] = (sum(v for k, v in cells.items() if k.startswith("end:stopped/") and k.endswith(f"/{cause}/{other}")), 30)
     floors["identity_checks:value"] = (ctx.cnt["identity_checks:value"], 200)
+    floors["first_success_checks_with_a_raising_callback"] = (ctx.cnt["first_success_checks_with_a_raising_callback"], 100)
     floors.update(tconc.floors(ctx))
     return dict(
         rule=(
@@ -83,4 +126,23 @@ def conclude(ctx):
 
 
 def replay(data):
+    if data.get("key") in ("operation-invoked-after-a-success", "returned-not-the-first-success"):
+        import collections
+
+        class C:
+            cnt = collections.Counter()
+            bad = []
+
+            def inc(self, *a):
+                pass
+
+            def viol(self, k, m, pl):
+                self.bad.append(m)
+
+        c = C()
+        first_success_is_final(c, data["payload"]["scenario"], data["payload"]["entry"])
+        for m in c.bad:
+            print("  !!", m)
+        print("replay:", "violation reproduced" if c.bad else "no violation on this tree")
+        return 1 if c.bad else 0
     return common.replay_trace(data, [O.o_surface])
